@@ -266,3 +266,5 @@ _quick("C16", "C16_second", "a second compaction: rewrite.aof from the first one
 _quick("C17", "C17_recycle", "5..8 keys with values on a fast key table of 4 slots (some parked in the long-expiry table), all released in ascending or descending order, wheel swept, then 24 fresh keys one after the other: no value shown, no free manager carrying a value, counters back", ["-witness", "1"])
 
 _quick("C09", "C09_publish", "every program of 4 persisted operations (LOCK / LOCK with a value / one-level UNLOCK on two keys) through LockDB, AofChannel, Aof.PushLock with rotation after two records: the records read back from the log files and the records a cursor pops from the replication ring are the same sequence with the same values", ["-witness", "20"], reach=["end", "rotated"])
+
+_quick("C09", "C09_converge", "every leader program of 4 persisted operations (LOCK / LOCK with a value / one-level UNLOCK / full UNLOCK on two keys); a follower-state instance applies the records popped from the ring (Aof.LoadLock); keys, LockIds, depths and values compared with the leader", ["-witness", "50"], reach=["end", "held", "valued"])
